@@ -128,6 +128,26 @@ def two_sessions(sess, suite, n, t, nsign):
     r = sess.call(req, EXACT, "sign-incorrect")
     sess.oracle(r.err == "IncorrectCommitment", "signer did not refuse nonces whose commitments differ from its entry (%s)" % r.raw, [req])
     sess.case("incorrect|" + req)
+    # --- exactly ONE field of the signer's own entry replaced (the other one is still the signer's)
+    nb = nonces_fields(noncesB[i])
+    for which, pair in (("hiding", (nb["D"], cmA[i][1])), ("binding", (cmA[i][0], nb["E"]))):
+        cm = dict(cmA)
+        cm[i] = pair
+        req = "sign %s msg=%s comms=%s nonces=%s kp=%s" % (suite, msgA, comms_str_raw(cm), noncesA[i], kp)
+        r = sess.call(req, EXACT, "sign-onefield")
+        sess.oracle(r.err == "IncorrectCommitment", "signer signed although the %s commitment of its own entry is not its own (%s)" % (which, r.raw), [req])
+        sess.case("onefield|" + req)
+        sess.count("own-entry-one-field")
+    # --- a genuine share re-filed under an identifier outside the signing package (a non-signing participant / a stranger)
+    for stranger in (extra[:1] + [fld.enc(fld.rand(rng))]):
+        if stranger in signers:
+            continue
+        z2 = {(stranger if k == signers[-1] else k): v for k, v in zA.items()}
+        for mode in ("first", "all", "disabled"):
+            a = aggregate(sess, suite, msgA, commsA, z2, pkp, mode, EXACT)
+            sess.oracle(a.err == "UnknownIdentifier", "aggregate_custom(%s) accepted a share filed under an identifier that is not in the signing package (%s)" % (mode, a.raw[:60]), [sess.records[-1][0]])
+            sess.case("refiled|" + sess.records[-1][0])
+        sess.count("share-refiled")
     # --- own entry holds somebody else's commitments while the signer's real pair sits under another identifier
     for j in others[:2] + extra[:1]:
         cm = dict(cmA)
